@@ -72,7 +72,12 @@ PROGRAMS = [
     ("str-scalar-and-array-same-name", '10 DIM NA$ ( 5 ) : NA$ = "X" : NA$ ( 1 ) = NA$'),
     ("dim-then-use-later", "10 DIM A ( 5 )\n20 A ( 1 ) = 2\n30 B ( 3 ) = A ( 1 )"),
     ("joystk", "10 Z = JOYSTK ( 0 )"),
+    # the DIM statement stands later in the text than the first reference (subroutine that sets things up, run first)
+    ("dim-in-subroutine", "10 GOSUB 100\n20 A ( 15 ) = 1\n30 END\n100 DIM A ( 20 ) : RETURN"),
+    ("dim-str-in-subroutine", '10 GOSUB 100\n20 F$ ( 3 ) = "X"\n30 END\n100 DIM F$ ( 7 ) : RETURN'),
+    ("dim-after-goto", "10 GOTO 100\n20 A ( 2 ) = 1 : END\n100 DIM A ( 4 ) : GOTO 20"),
 ]
+TEXT_ORDER_FREE = {"dim-in-subroutine", "dim-str-in-subroutine", "dim-after-goto"}  # the DIM runs first although it stands later
 CONFIG_KEYS = {"G$": "G$", "F$()": "arr_F$", "NA$()": "arr_NA$", "NA$": "NA$", "K$()": "arr_K$", "B$": "B$", "E$()": "arr_E$"}
 
 
@@ -237,7 +242,7 @@ def check_one(job):
                 if d is None or d[0] is None:
                     out["sigs"].append((f"array-not-declared:{label}", f"{key} is subscripted but never declared as an array", None))
                 else:
-                    if d[3] > pos:
+                    if d[3] > pos and label not in TEXT_ORDER_FREE:
                         out["sigs"].append((f"array-declared-after-use:{label}", f"{key}", None))
                     want = [b + 1 for b in sdims[key]] if key in sdims else [11] * nsub
                     if list(d[0]) != want:
@@ -498,6 +503,11 @@ def run(tier):
             else:
                 ctx.violation(sig, f"{r['job'][1]!r} with dependencies -> {what}", {"source": r["job"][1], "bundle": True, "witness": witness})
     library_string_flows(ctx)
+    # "the per-name size from the configuration file": the file is read again for every conversion (edited file, same
+    # relative name in another directory) - the C12 obligation, claimed here for the size clause
+    from vf.props import c12 as _c12
+
+    _c12.config_history(ctx)
     config_validation(ctx)
     ctx.add_solver_stats(smt.STATS.export())
     ctx.extra["solver"] = {"z3": smt.z3_version()}
